@@ -8,7 +8,7 @@ from sa.emit import Alt, Elem, Opt, Rep, walk_elems
 from sa.flow import show, sig, subterms
 from sa.model import AnalysisError, norm, parent, walk_no_nested
 
-from .common import include_rules, alts, callers_of, commands, is_call, is_const, loop_iteration_paths, prov, unshipped_modules
+from .common import atomic_deps, include_rules, alts, callers_of, commands, is_call, is_const, loop_iteration_paths, prov, unshipped_modules
 from .xmlcommon import documents
 
 SPEC = "ascmhl.ignore.MHLIgnoreSpec"
@@ -279,6 +279,34 @@ def run(report, p):
                 r14.note(f"{f.loc(c)}: the condition of the completeness failure ({colls}) could not be related to the ignore filter by this rule (R12.3 / R12.9 judge the pipeline)")
     if n14 == 0:
         raise AnalysisError("no construction of CompletenessCheckFailedException found in the shipped commands")
+
+    # ------------------------------------------------------------------ R12.15
+    r15 = report.rule(
+        "R12.15",
+        "an ignored nested history is not MISSING either: where create collects the nested histories referenced by the latest generation whose ascmhl folder is gone "
+        "(to fail with `Missing ASC MHL history`, exit 30), a folder the effective patterns ignore is left out - verify and diff never look at such a folder",
+        1,
+    )
+    n15 = 0
+    for fq, f in sorted(p.funcs.items()):
+        if fq not in shipped_reach or not f.module.name.endswith("commands"):
+            continue
+        raises = [n for n in walk_no_nested(f.node) if isinstance(n, ast.Raise) and n.exc is not None and "NoMHLHistoryException" in norm(n.exc) and any(isinstance(x, ast.Call) and isinstance(x.func, ast.Attribute) and x.func.attr == "join" for x in ast.walk(n.exc))]
+        for rs in raises:
+            coll = next((x.id for x in ast.walk(rs.exc) if isinstance(x, ast.Name) and any(isinstance(c, ast.Call) and isinstance(c.func, ast.Attribute) and c.func.attr == "add" and isinstance(c.func.value, ast.Name) and c.func.value.id == x.id for c in walk_no_nested(f.node))), None)
+            if coll is None:
+                continue
+            g15 = cfg_of(f)
+            for c in [c for c in walk_no_nested(f.node) if isinstance(c, ast.Call) and isinstance(c.func, ast.Attribute) and c.func.attr == "add" and isinstance(c.func.value, ast.Name) and c.func.value.id == coll]:
+                atoms = [a for t_, l_ in g15.necessary_branches(g15.node_for(c)) for a in atomic_deps(t_.ast, l_)]
+                if any(a_.endswith(f" in {coll}") and l_ == "T" for a_, l_ in atoms):
+                    continue  # an entry of the collection is moved to its new name (rename detection)
+                n15 += 1
+                r15.instance(f, c, norm(c)[:70])
+                okf = any("match_file" in a_ and l_ == "F" for a_, l_ in atoms)
+                r15.check(okf, f, c, f"`{norm(c)[:60]}` registers a referenced nested history whose ascmhl folder is gone as missing without asking the ignore patterns: after the folder of a nested history was removed, `create ROOT -i <that folder>` exits 30 `Missing ASC MHL history` although the effective patterns exclude it (verify / diff with the same pattern accept the tree)", construct=f"{f.name}: missing nested history registered without the ignore test")
+    if n15 == 0:
+        raise AnalysisError("create: the collection of missing nested histories (raised as NoMHLHistoryException) was not found")
 
     # ------------------------------------------------------------------ R12.9
     r9 = report.rule(
